@@ -2,12 +2,18 @@
 from __future__ import annotations
 
 import itertools
+import re
 
 import build as B
 import common as H
 from common import ANY_KIND, Case
 
 KINDS = ["a", "b", "c"]
+
+
+#: node identity used in observations: run() installs a per-tree local numbering (pre-order, 1..n) so that case
+#: terms stay small; a bijection on the nodes of the tree, applied to the model input and the observation alike
+_LID = H.nid
 
 
 def call(fn):
@@ -20,13 +26,13 @@ def call(fn):
 def on(x):
     if isinstance(x, tuple) and x and x[0] == "ERR":
         return [-1, x[1]]
-    return [] if x is None else [H.nid(x)]
+    return [] if x is None else [_LID(x)]
 
 
 def nl(x):
     if isinstance(x, tuple) and x and x[0] == "ERR":
         return [-1, x[1]]
-    return [H.nid(n) for n in x]
+    return [_LID(n) for n in x]
 
 
 def onat(x):
@@ -47,9 +53,9 @@ class Prop:
     case_module = "CaseNav"
     case_vo = "theories/Cases/CaseNav.vo"
     run_fn = "run15"
-    shard = 150
+    shard = 60
     rule = ("typed trees: every ordered forest with <= N nodes (N=4 quick, 5 thorough) x kind assignments over "
-            "{a,b,c} (all for <=4 nodes, sampled beyond) plus seeded random trees up to 14 nodes; siblings may carry "
+            "{a,b,c} (all for <=4 nodes, sampled beyond) plus seeded random trees up to 14 nodes and wide forests (sibling lists up to ~18 nodes); siblings may carry "
             "equal-comparing data under different data_ids; queried kinds = every present kind, one absent kind and ANY_KIND, "
             "any_kind on/off, every node.  A case is one tree; distinct = distinct (shape, kinds, labels); "
             "non-trivial = at least one sibling list with two different kinds or two nodes of one kind")
@@ -58,10 +64,15 @@ class Prop:
     manifest = dict(
         text=("Machine-checked theorems (Coq 8.16, no axioms) that every kind-aware query of the executable model equals the plain query "
               "on the kind-filtered child/sibling list, for every forest with unique node identities, every node (top level included), "
-              "every kind and any_kind on/off; the model is tied to /repo on every run by a correspondence check (model evaluated by "
+              "every kind and any_kind on/off, and, in positional form, that index / previous / next / first / last / is-first / "
+              "is-last / siblings of a node are its position and neighbours in the sibling list filtered by its kind; the lexical facts "
+              "of typed_tree.py the model relies on (identity search through Node.get_index / `is self`, every `==` compares kinds, "
+              "`len(...) > 0`, `own_idx < pc_len - 1`, scan starts, literal subscripts) are lifted by gen_facts (section NAVT) and proved "
+              "to be what the model computes; the model is tied to /repo on every run by a correspondence check (model evaluated by "
               "vm_compute vs. the implementation on all typed trees <=4 nodes x all kind assignments + random trees, every node, every "
               "query) and an independent Python oracle of the property statement."),
-        note=("Trusted: Coq kernel + vm_compute; hand-written model theories/Forest/Nav.v (tied by the correspondence only); harness "
+        note=("Trusted: Coq kernel + vm_compute; hand-written model theories/Forest/Nav.v (tied by the correspondence and, for the lexical "
+              "facts of sections NAV/NAVT of Generated.v, by proof obligations); harness "
               "generators/observation; node identity = allocation index recorded by a harness-side wrapper of Node.__init__. "
               "Print Assumptions: closed under the global context for all theorems."),
         technique="Coq proof about an executable Gallina model + differential correspondence check (vm_compute) + Python oracle",
@@ -70,6 +81,14 @@ class Prop:
 
     # ----- generation
     def descs(self, tier, rng):
+        # spread the larger (random / wide) cases evenly over the case files, which are evaluated in parallel
+        self.shard = 60 if tier == "quick" else 50
+        ds = list(self._descs(tier, rng))
+        stride = max(1, -(-len(ds) // self.shard))
+        for r in range(stride):
+            yield from ds[r::stride]
+
+    def _descs(self, tier, rng):
         nmax = 4 if tier == "quick" else 5
         univ = ["e:1", "e:1", "e:2", "s:x", "e:1", "s:y", "e:2", "i:7"]
         # corpus: witnesses of the defects repaired by fix: commits (see known_findings.json)
@@ -78,18 +97,25 @@ class Prop:
             for shape in H.forests(n):
                 assigns = list(itertools.product(range(3), repeat=n))
                 if n > 4:
-                    assigns = rng.sample(assigns, 40)
+                    assigns = rng.sample(assigns, 25)
                 for ks in assigns:
                     # labels: equal-comparing objects with distinct explicit ids
                     nodes = B.shape_to_nodes(shape, lambda i, d, s, ks=ks: (i % len(univ), KINDS[ks[i]], f"id{i}" if univ[i % len(univ)].startswith("e:") else None))
                     yield dict(typed=True, univ=univ, nodes=nodes, query=KINDS)
-        nrand = 60 if tier == "quick" else 600
+        nrand = 60 if tier == "quick" else 450
         for _ in range(nrand):
             n = rng.randint(5, 14)
             shape = H.random_shape(rng, n, deep=rng.choice([0.2, 0.5, 0.8]))
             ks = [rng.randrange(rng.choice([1, 2, 3])) for _ in range(n)]
             nodes = B.shape_to_nodes(shape, lambda i, d, s, ks=ks: (i % len(univ), KINDS[ks[i]], f"id{i}"))
             yield dict(typed=True, univ=univ, nodes=nodes, query=KINDS)
+        # wide sibling lists (up to ~18 siblings of up to three kinds, all data equal-comparing): every position far from both ends
+        for _ in range(25 if tier == "quick" else 200):
+            n = rng.randint(10, 20)
+            shape = H.random_shape(rng, n, deep=rng.choice([0.0, 0.05, 0.2]))
+            ks = [rng.randrange(rng.choice([2, 3])) for _ in range(n)]
+            nodes = B.shape_to_nodes(shape, lambda i, d, s, ks=ks: (0, KINDS[ks[i]], f"id{i}"))
+            yield dict(typed=True, univ=["e:1"], nodes=nodes, query=KINDS)
 
     def shrink_candidates(self, desc):
         for nodes in B.drop_one_node(desc["nodes"]):
@@ -97,9 +123,13 @@ class Prop:
 
     # ----- one case: build, observe implementation, oracle
     def run(self, desc) -> Case:
+        global _LID
         tree, U = B.build(desc)
         ks = [ANY_KIND] + list(desc["query"])
         nodes = B.all_nodes(tree._root)
+        local = {H.nid(x): i + 1 for i, x in enumerate(nodes)}
+        local[0] = 0
+        _LID = lambda x: -1 if x is None else local[H.nid(x)]   # noqa: E731
 
         def sib_obs(n, any_kind):
             return [
@@ -124,7 +154,8 @@ class Prop:
         obs = [per_node, it, top]
 
         fail = self.oracle(tree, nodes, ks, obs)
-        coq = f"({H.coq_forest(tree._root, U)}, {H.coq_list(H.coq_text(k) for k in desc['query'])})"
+        forest = re.sub(r"\(Tz (\d+) ", lambda m: f"(Tz {local[int(m.group(1))]} ", H.coq_forest(tree._root, U))
+        coq = f"({forest}, {H.coq_list(H.coq_text(k) for k in desc['query'])})"
         kinds_in_sibs = [len({c.kind for c in (p._children or [])}) for p in [tree._root] + nodes]
         sizes = [len(p._children or []) for p in [tree._root] + nodes]
         return Case(desc=desc, coq_input=coq, impl_obs=obs, oracle_fail=fail,
@@ -140,10 +171,10 @@ class Prop:
             return list(lst) if k is ANY_KIND else [c for c in lst if c._kind == k]
 
         def ids(l):
-            return [H.nid(x) for x in l]
+            return [_LID(x) for x in l]
 
         def o(x):
-            return [] if x is None else [H.nid(x)]
+            return [] if x is None else [_LID(x)]
 
         pre = nodes
         for ki, k in enumerate(ks):
@@ -163,7 +194,7 @@ class Prop:
                 names = ["get_children", "first_child", "last_child", "has_children"]
                 for j in range(4):
                     if chs[ki][j] != exp[j]:
-                        return f"{names[j]}: node {H.nid(n)} kind={'ANY' if k is ANY_KIND else k} got {chs[ki][j]} expected {exp[j]}"
+                        return f"{names[j]}: node {_LID(n)} kind={'ANY' if k is ANY_KIND else k} got {chs[ki][j]} expected {exp[j]}"
             sibs_full = n._parent._children
             for any_kind, so in ((False, s0), (True, s1)):
                 fl = list(sibs_full) if any_kind else [c for c in sibs_full if c._kind == n._kind]
@@ -175,7 +206,7 @@ class Prop:
                          "next_sibling", "get_index", "is_first_sibling", "is_last_sibling"]
                 for j in range(9):
                     if so[j] != exp[j]:
-                        return f"{names[j]}: node {H.nid(n)} any_kind={any_kind} got {so[j]} expected {exp[j]}"
+                        return f"{names[j]}: node {_LID(n)} any_kind={any_kind} got {so[j]} expected {exp[j]}"
         return None
 
 
